@@ -331,6 +331,8 @@ R_AOLE = [f"{_RAE}.owner_fromBytes", f"{_RAE}.topic_fromBytes", f"{_RAE}.writer_
           f"{_RAE}.exportGenesis_ent", f"{_RAE}.exportTable_abs", f"{_RAE}.genesis_roundtrip"]
 _RAO = "Panacea.Refine.AolOrder"
 R_AOLO = [f"{_RAG}.initGenesis_order_independent", "Panacea.C09.importTable_perm", "Panacea.C09.aolImport_perm", "Panacea.Map.ext_sorted", "Panacea.Map.foldl_set_perm"]
+_RAR = "Panacea.Refine.AolReach"
+R_AOLR = [f"{_RAE}.reachable_genesis_roundtrip", "Panacea.Aol.keysInv_step", "Panacea.Aol.keysInv_run", "Panacea.Aol.be64_mod"]
 _RDG = "Panacea.Refine.DidGenesis"
 R_DIDG = [f"{_RK}.initGenesis_run", f"{_RK}.initGenesis_abs", f"{_RK}.initGenesis_empty", f"{_RK}.listDIDs_run",
           f"{_RK}.exportGenesis_run", f"{_RK}.genesis_roundtrip", f"{_RK}.initGenesis_order_independent"]
@@ -347,7 +349,7 @@ REFINE = {
     "C11": ([_RD, _RK], R_DIDV[-4:] + R_DIDK[3:5]),
     "C03": ([_RD, _RK, _RDG], R_DIDV[3:5] + R_DIDV[6:7] + R_DIDK + R_DIDG[-2:-1]),
     "C07": ([_RB], R_BURN),
-    "C08": ([_RP, _RPQ, _RPG, _RDG, _RCS, _RAG, _RAE], R_PNFTG + [f"{_RP}.getAllDenoms_run"] + R_DIDG + R_CKS[-4:] + R_AOLG + R_AOLE),
+    "C08": ([_RP, _RPQ, _RPG, _RDG, _RCS, _RAG, _RAE, _RAR], R_PNFTG + [f"{_RP}.getAllDenoms_run"] + R_DIDG + R_CKS[-4:] + R_AOLG + R_AOLE + R_AOLR),
     "C09": ([_RDG, _RAG, _RAO], R_DIDG[:3] + R_DIDG[-1:] + R_AOLG[4:5] + R_AOLG[7:9] + R_AOLO),
     "C04": ([_RK, _RDG], R_DIDK[2:] + R_DIDG[-2:-1]),
     "C05": ([_RK, _RDG], R_DIDK[3:] + R_DIDG[-2:-1]),
